@@ -70,7 +70,7 @@ var builtinDecos = []string{
 // Populate, one name that is not registered (rendering must then fail), and
 // one decoration derived from a registered one by copying it and changing two
 // glyphs (value copies of a Decoration must be independent of each other).
-const NDecoChoices = 9
+const NDecoChoices = 10
 
 // htmlFlagMask: bit0 row-class generator, bit1 caption/id/class, bit3 a
 // TemplateName shared by every wrapper that sets it.
@@ -88,6 +88,9 @@ func DecoName(i int) string {
 	}
 	if i == len(builtinDecos)+2 {
 		return "derived"
+	}
+	if i == len(builtinDecos)+3 {
+		return "boxless-inner"
 	}
 	return unknownDecoName
 }
@@ -193,6 +196,13 @@ func (w *World) decorate(tt *texttable.TextTable, spec RenderSpec) {
 		tt.SetDecoration(d)
 		return
 	}
+	if name == "boxless-inner" {
+		// the boxless decoration with column dividers: content lines only, "a | b"
+		d := decoration.NoBox()
+		d.VBodyInner, d.VHeader = "|", "|"
+		tt.SetDecoration(d)
+		return
+	}
 	tt.SetDecorationNamed(name)
 }
 
@@ -226,7 +236,7 @@ func (w *World) autoStyle(spec RenderSpec) string {
 		return "markdown"
 	}
 	name := DecoName(spec.Deco)
-	if name == "custom" || name == "derived" {
+	if name == "custom" || name == "derived" || name == "boxless-inner" {
 		name = decoration.D_UTF8_HEAVY
 	}
 	if spec.Flags&2 != 0 && name == decoration.D_UTF8_HEAVY {
@@ -325,7 +335,7 @@ func AllRenderSpecs() []RenderSpec {
 					continue
 				}
 				for d := 0; d < NDecoChoices; d++ {
-					if (via == ViaAuto || via == ViaAutoFn) && (DecoName(d) == "custom" || DecoName(d) == "derived") {
+					if (via == ViaAuto || via == ViaAutoFn) && (DecoName(d) == "custom" || DecoName(d) == "derived" || DecoName(d) == "boxless-inner") {
 						continue
 					}
 					out = append(out, RenderSpec{Format: f, Via: via, Deco: d, Flags: d & 1})
